@@ -17,7 +17,9 @@ func runC18(p *Plan) {
 			m = map[string]any{"a": 1}
 		}
 		paths := treePaths(r, m, 4)
-		sort.Slice(paths, func(i, j int) bool { return len(paths[i]) < len(paths[j]) || (len(paths[i]) == len(paths[j]) && joinKeys(paths[i]) < joinKeys(paths[j])) })
+		sort.Slice(paths, func(i, j int) bool {
+			return len(paths[i]) < len(paths[j]) || (len(paths[i]) == len(paths[j]) && joinKeys(paths[i]) < joinKeys(paths[j]))
+		})
 		if len(paths) > 25 {
 			for i := len(paths) - 1; i > 0; i-- {
 				j := r.Intn(i + 1)
